@@ -668,6 +668,17 @@ class OvGen:
             nums = [n for n in sib if n not in REC0]
             n = r.choice(nums) if nums else "v"
             return "(let %s = %s in %s + %s)" % (n, self.num(), n, x())
+        if c == 11 and r.chance(1, 2):
+            # binders that rebind the name of a sibling while using the sibling: the sibling IS a
+            # dependency (the bound expression / the argument is outside the scope of the binder)
+            nums = [n for n in sib if n not in REC0]
+            if nums:
+                self.feat("rebinding-binder")
+                n = r.choice(nums)
+                return r.choice(["(let %s = %s + 1 in %s * 2)" % (n, n, n),
+                                 "((fun %s => %s + %s) %s)" % (n, n, self.num(), n),
+                                 "(%s |> match { %s => %s + 1 })" % (n, n, n),
+                                 "(let %s = %s, v = %s in v + %s)" % (n, self.num(), n, n)])
         if c == 11:
             self.feat("inline-record")
             return "({p = %s, q = p + %s}.q)" % (e(), x())
@@ -927,6 +938,11 @@ def merged_after_operands(case, ok_names):
 
 OV_CORPUS = [
     # (merged program, substituted program)
+    ("{a | default = 1, b = let a = a + 1 in a * 2} & {a = 5}", "{a = 5, b = let a = a + 1 in a * 2}"),
+    ("{a | default = 1, b = (fun a => a + 1) a, c = let a = 2, v = a in v + a} & {a = 5}", "{a = 5, b = (fun a => a + 1) a, c = let a = 2, v = a in v + a}"),
+    ("{a | default = 1, b | default = 10, c = {diff = a - b, lbl = \"%{std.to_string a}/%{std.to_string b}\"}} & {c = {extra = true}} & {a | force = 100}",
+     "{a | force = 100, b | default = 10, c = {diff = a - b, lbl = \"%{std.to_string a}/%{std.to_string b}\", extra = true}}"),
+    ("{a | default = 1, b | default = 10, c = a - b} & {a | default = 1, b | default = 10, c = a - b} & {a | force = 100}", "{a | force = 100, b | default = 10 & 10, c = (a - b) & (a - b)}"),
     ("let n = \"y\" in {a | default = 1, \"%{n}\" = a + 1} & {a = 7}", "{a = 7, y = a + 1}"),
     ("{a = 1, b = a + 1} & {a | force = 5}", "{a | force = 5, b = a + 1}"),
     ("{a | default = 1, b = a + 1, c = b * 2} & {a = 5}", "{a = 5, b = a + 1, c = b * 2}"),
